@@ -3,6 +3,7 @@
 package crypto
 
 import (
+	"unsafe"
 	"crypto/rand"
 	"io"
 	"time"
@@ -160,3 +161,46 @@ func zzC12_concurrent(algoKind int) {
 }
 
 func refSHA2_256(data []byte) []byte { d := sha256.Sum256(data); return d[:] }
+
+// zzC12_pk_concurrent: two goroutines make the FIRST PublicKey() call on one private key object (fresh from the
+// constructor / decoded / aggregated: the public key is computed lazily). Under every interleaving (sequentially
+// consistent memory) each call returns the complete key scalar*g2, and so do later calls.
+func zzC12_pk_concurrent(kind int) {
+	var x, y scalar
+	nondetFrStar(&x)
+	nondetFrStar(&y)
+	var sk *prKeyBLSBLS12381
+	switch kind {
+	case 0:
+		sk = newPrKeyBLSBLS12381(&x)
+	case 1:
+		b := make([]byte, frBytesLen)
+		writeScalar(b, &x)
+		k, err := DecodePrivateKey(BLSBLS12381, b)
+		verifAssume(err == nil)
+		sk = k.(*prKeyBLSBLS12381)
+	default:
+		k, err := AggregateBLSPrivateKeys([]PrivateKey{newPrKeyBLSBLS12381(&x), newPrKeyBLSBLS12381(&y)})
+		verifAssume(err == nil)
+		sk = k.(*prKeyBLSBLS12381)
+	}
+	twinScalar := sk.scalar
+	var e pointE2
+	generatorScalarMultG2(&e, &twinScalar)
+	want := make([]byte, g2BytesLen)
+	writePointE2(want, &e)
+	verifTrackShared(sk, unsafe.Offsetof(sk.pk), unsafe.Offsetof(sk.pk)+unsafe.Sizeof(sk.pk))
+	var enc [2][]byte
+	body := func(t int) func() {
+		return func() {
+			for rep := 0; rep < verifNativeRepeat(1); rep++ {
+				enc[t] = sk.PublicKey().Encode()
+			}
+		}
+	}
+	verifThreads2(body(0), body(1))
+	assertEqBytes(enc[0], want, "first concurrent PublicKey() call returns scalar*g2 (complete key)")
+	assertEqBytes(enc[1], want, "second concurrent PublicKey() call returns scalar*g2 (complete key)")
+	assertEqBytes(sk.PublicKey().Encode(), want, "later PublicKey() calls return scalar*g2")
+	verifReach("public key concurrent")
+}
